@@ -681,6 +681,13 @@ func (g *Gen) unop(x *ssa.UnOp) Val {
 		return Val{T: x.Type(), S: "(- " + hi.String() + " " + v.S + ")"}
 	case token.ARROW:
 		g.note("channel receive abstracted (blocking not analysed)")
+		if qc, ok := g.E.contracts.Ghosts["qcur"]; ok && g.mode == ModeInt {
+			if ch := g.val(x.X); ch.Addr == nil {
+				hc, _, _, _ := g.ghostHeap(qc)
+				curC := g.heapGet(g.cur, hc)
+				g.heapSet(g.cur, hc, fmt.Sprintf("(store %s %s (ite (> (select %s %s) 0) (- (select %s %s) 1) 0))", curC, ch.S, curC, ch.S, curC, ch.S))
+			}
+		}
 		return g.havocVal(x.Type(), "recv")
 	}
 	g.note("unsupported unop %s", x.Op)
@@ -1134,6 +1141,11 @@ func (g *Gen) selectInstr(x *ssa.Select) Val {
 				curL, curI := g.heapGet(g.cur, hl), g.heapGet(g.cur, hi)
 				n := g.define("qn", "Int", fmt.Sprintf("(select %s %s)", curL, ch.S))
 				g.heapSet(g.cur, hl, fmt.Sprintf("(ite %s (store %s %s (+ %s 1)) %s)", cond, curL, ch.S, n, curL))
+				if qc, ok := g.E.contracts.Ghosts["qcur"]; ok {
+					hc, _, _, _ := g.ghostHeap(qc)
+					curC := g.heapGet(g.cur, hc)
+					g.heapSet(g.cur, hc, fmt.Sprintf("(ite %s (store %s %s (+ (select %s %s) 1)) %s)", cond, curC, ch.S, curC, ch.S, curC))
+				}
 				if pay.Addr == nil && g.sortOf(pay.T) == "Int" {
 					g.heapSet(g.cur, hi, fmt.Sprintf("(ite %s (store %s %s (store (select %s %s) %s %s)) %s)", cond, curI, ch.S, curI, ch.S, n, pay.S, curI))
 				}
